@@ -44,7 +44,7 @@ Next ==
   \/ ex.pc = "origin" /\ (\E a \in (IF pos = 2 THEN Stored ELSE {A200}) : Origin(a)) /\ UNCHANGED pos
   \/ ex.pc = "bgorigin" /\ (\E a \in BgAnswers : BgOriginT(a, EffMs)) /\ UNCHANGED pos
   \/ pos = 2 /\ ex.pc = "idle" /\ Tick(7) /\ pos' = 3
-  \/ pos = 3 /\ ex.pc = "idle" /\ (\E c \in {0, 1, 2} : Begin([Rq0 EXCEPT !.cancel = c])) /\ pos' = 4
+  \/ pos = 3 /\ ex.pc = "idle" /\ (\E c \in {0, 1, 2, 3} : Begin([Rq0 EXCEPT !.cancel = c])) /\ pos' = 4
   \/ pos = 4 /\ ex.pc = "idle" /\ Tick(T + 6) /\ pos' = 5
   \/ pos = 5 /\ ex.pc = "idle" /\ Begin(Rq0) /\ pos' = 6
   \/ Internal /\ UNCHANGED pos
